@@ -126,6 +126,7 @@ func (e *Engine) verifyFunction(fn *ssa.Function, ct *Contract) {
 		}
 	}
 	st.entry = st.snapshot()
+	e.applyHints(&EvalCtx{e: e, st: st, old: st.entry, vars: vars, c: ct, pkg: pkg, fr: fr}, ct, 0)
 	entryAllocs := len(st.allocs)
 	e.topVars, e.topPkg, e.topFrame = vars, pkg, fr
 	e.crashCheck(fr, st, "function entry")
@@ -152,6 +153,7 @@ func (e *Engine) verifyFunction(fn *ssa.Function, ct *Contract) {
 				}
 			}
 			ctx := &EvalCtx{e: e, st: st2, old: st2.entry, vars: rv, c: c, pkg: pkg, fr: fr, entryAllocs: entryAllocs}
+			e.applyHints(ctx, c, 0)
 			if c == ct {
 				e.frameCheck(st2, fr, ctx, ct, pathID)
 			}
@@ -336,6 +338,9 @@ func (e *Engine) axiomTexts() []string {
 	axiomDone = true
 	scratch := newState()
 	for _, a := range e.specs.Axioms {
+		if a.Manual {
+			continue
+		}
 		ctx := &EvalCtx{e: e, st: scratch, vars: map[string]*Val{}}
 		v, err := ctx.evalAs(a.E, sBool)
 		if err != nil {
@@ -403,7 +408,11 @@ func (e *Engine) loopCtx(fr *Frame, st *State, hdr *ssa.BasicBlock, assume bool)
 
 func (e *Engine) checkLoopInvariants(fr *Frame, st *State, hdr *ssa.BasicBlock, ord int, kind string) {
 	c := e.contractFor(fr.fn)
+	if c == nil {
+		return
+	}
 	ctx := e.loopCtx(fr, st, hdr, false)
+	e.applyHints(ctx, c, ord)
 	for _, inv := range c.Invs {
 		if inv.Loop != ord {
 			continue
@@ -419,7 +428,11 @@ func (e *Engine) checkLoopInvariants(fr *Frame, st *State, hdr *ssa.BasicBlock, 
 
 func (e *Engine) assumeLoopInvariants(fr *Frame, st *State, hdr *ssa.BasicBlock, ord int) {
 	c := e.contractFor(fr.fn)
+	if c == nil {
+		return
+	}
 	ctx := e.loopCtx(fr, st, hdr, true)
+	e.applyHints(ctx, c, ord)
 	for _, inv := range c.Invs {
 		if inv.Loop != ord {
 			continue
@@ -435,6 +448,9 @@ func (e *Engine) assumeLoopInvariants(fr *Frame, st *State, hdr *ssa.BasicBlock,
 
 func (e *Engine) recordVariant(fr *Frame, st *State, hdr *ssa.BasicBlock, ord int) {
 	c := e.contractFor(fr.fn)
+	if c == nil {
+		return
+	}
 	ctx := e.loopCtx(fr, st, hdr, true)
 	for _, d := range c.Decs {
 		if d.Loop != ord {
@@ -460,6 +476,9 @@ func (e *Engine) recordVariant(fr *Frame, st *State, hdr *ssa.BasicBlock, ord in
 
 func (e *Engine) checkDecreases(fr *Frame, st *State, hdr *ssa.BasicBlock, ord int) {
 	c := e.contractFor(fr.fn)
+	if c == nil {
+		c = &Contract{}
+	}
 	ctx := e.loopCtx(fr, st, hdr, false)
 	found := false
 	for _, d := range c.Decs {
@@ -490,7 +509,8 @@ func (e *Engine) checkDecreases(fr *Frame, st *State, hdr *ssa.BasicBlock, ord i
 		e.addObligation(st, fr, "decreases", append([]string{"termination"}, d.Tags...), fmt.Sprintf("loop#%d decreases %s", ord, d.Src), fmt.Sprintf("%s:%d", d.File, d.Line), goal, nil)
 	}
 	if !found && e.cfg.Safety {
-		e.errorf("%s: loop #%d has no decreases clause: termination not shown", fr.fn, ord)
+		o := e.addObligation(st, fr, "decreases", []string{"termination"}, fmt.Sprintf("loop#%d has no decreases clause: termination not shown", ord), fr.fn.String(), "false", nil)
+		o.Query = preamble + "(assert true)\n"
 	}
 }
 
@@ -549,6 +569,9 @@ func (e *Engine) havocLoop(fr *Frame, st *State, hdr *ssa.BasicBlock, c *Contrac
 				}
 			} else if callee = cc.StaticCallee(); callee != nil {
 				if _, ok := intrinsics[callee.String()]; ok {
+					if strings.HasPrefix(callee.String(), "(*strings.Builder).Write") {
+						ghosts["sb_val"] = true
+					}
 					return
 				}
 				ct = e.lookup(callee.String())
@@ -658,6 +681,11 @@ func (e *Engine) havocLoop(fr *Frame, st *State, hdr *ssa.BasicBlock, c *Contrac
 	sort.Strings(gs)
 	for _, g := range gs {
 		st.ghost[g] = st.fresh("g_"+g, e.ghostSort(g))
+		for fk := range st.facts {
+			if strings.HasPrefix(fk, "GHOST:"+g+"@") {
+				delete(st.facts, fk)
+			}
+		}
 	}
 }
 
@@ -717,6 +745,9 @@ const axiomMarker = ";;AXIOMS;;"
 // finishQuery inserts the relevant axioms (decided on the whole query text, goal included).
 func (e *Engine) finishQuery(q string, dropQuant bool) string {
 	var ax strings.Builder
+	if e.curC != nil && e.curC.Opts["axioms"] == "none" || e.noAxioms {
+		return strings.Replace(q, axiomMarker+"\n", "", 1)
+	}
 	if !dropQuant {
 		for _, a := range e.relevantAxioms(q) {
 			ax.WriteString("(assert " + a + ")\n")
@@ -973,4 +1004,72 @@ func (e *Engine) topPrefers(st *State) []string {
 		st.pc = st.pc[:save]
 	}
 	return prefs
+}
+
+// applyHints assumes the instances of manual axioms requested by `hint` clauses of contract c for loop `ord`
+// (0 = function level), evaluated in the current state.  An instance of an (assumed) axiom is a true fact, so
+// hints are assumed, never checked.
+func (e *Engine) applyHints(ctx *EvalCtx, c *Contract, ord int) {
+	if c == nil {
+		return
+	}
+	for _, h := range c.Hints {
+		if h.Loop != ord {
+			continue
+		}
+		if h.E.Op != "call" {
+			e.errorf("hint %q: expected axiomName(args...)", h.Src)
+			continue
+		}
+		var ax *Axiom
+		for _, a := range e.specs.Axioms {
+			if a.Name == h.E.S {
+				ax = a
+			}
+		}
+		if ax == nil || (ax.E.Op != "forall") {
+			e.errorf("hint %q: no quantified axiom named %s", h.Src, h.E.S)
+			continue
+		}
+		if len(h.E.Args) != len(ax.E.BNames) {
+			e.errorf("hint %q: axiom %s has %d binders", h.Src, ax.Name, len(ax.E.BNames))
+			continue
+		}
+		saved := ctx.bound
+		nb := map[string]*Val{}
+		for k, v := range saved {
+			nb[k] = v
+		}
+		ok := true
+		for i, bn := range ax.E.BNames {
+			so, ty, err := ctx.sortFromName(ax.E.BSorts[i])
+			if err != nil {
+				e.errorf("hint %q: %v", h.Src, err)
+				ok = false
+				break
+			}
+			av, err := ctx.evalAs(h.E.Args[i], so)
+			if err != nil {
+				e.errorf("hint %q: argument %d: %v", h.Src, i, err)
+				ok = false
+				break
+			}
+			nv := *av
+			if ty != nil {
+				nv.Typ = ty
+			}
+			nb[bn] = &nv
+		}
+		if !ok {
+			continue
+		}
+		// evaluate the axiom body with the binders bound to the given terms (in a neutral context: no lets, no locals)
+		sub := &EvalCtx{e: e, st: ctx.st, vars: map[string]*Val{}, bound: nb}
+		v, err := sub.evalAs(ax.E.Args[0], sBool)
+		if err != nil {
+			e.errorf("hint %q: %v", h.Src, err)
+			continue
+		}
+		ctx.st.assume(v.T)
+	}
 }
